@@ -203,6 +203,20 @@ def pow_int_inputs(seed=0, tier='quick'):
             for prec in precs:
                 for rnd in RND5:
                     yield dict(s=s, n=n, prec=prec, rnd=rnd)
+    # long sparse mantissas (1 +- 2**-k, 1 + 2**-k + 2**-j): the exact power is a representable number plus a
+    # tail far below the guard bits, so only the direction of the intermediate truncations decides the result
+    for k in (60, 120, 340) if tier == 'quick' else (40, 60, 90, 120, 200, 340, 500, 999):
+        sparse = []
+        for m in ((1 << k) + 1, (1 << k) - 1, 3 * (1 << k) + 1):
+            for sg in (0, 1):
+                sparse.append(mk(sg, m, -k))
+        # precisions at which (1+e)**n = (representable) + (tail below the guard bits), e = 2**-k
+        kprecs = sorted(set([10, 53, 2 * k + 3, 2 * k + 20, (5 * k) // 2, 3 * k - 14, 3 * k - 5, 3 * k + 8, 4 * k + 9]))
+        for s in sparse:
+            for n in (2, 3, 5, 6, 7, 9, -3, -7):
+                for prec in kprecs:
+                    for rnd in RND5:
+                        yield dict(s=s, n=n, prec=prec, rnd=rnd)
 
 
 GENS['pow_int_inputs'] = pow_int_inputs
@@ -291,3 +305,74 @@ def mod_inputs(seed=0, tier='quick'):
 
 
 GENS['mod_inputs'] = mod_inputs
+
+
+def memo_inputs(seed=0, tier='quick'):
+    """cache states satisfying the invariant (native c = 2/3) x requested precisions"""
+    from .spec import cfix
+    top = 40 if tier == 'quick' else 200
+    for m_prec in [-1] + list(range(0, top)):
+        for prec in range(0, top + 20):
+            yield dict(prec=prec, kwargs={}, m_prec=m_prec, m_val=(cfix(m_prec) if m_prec >= 0 else None))
+
+
+def const_inputs(seed=0, tier='quick'):
+    for prec in range(1, 80 if tier == 'quick' else 400):
+        for rnd in RND5:
+            yield dict(prec=prec, rnd=rnd)
+
+
+GENS.update({'memo_inputs': memo_inputs, 'const_inputs': const_inputs})
+
+
+def _iv_pool():
+    from fractions import Fraction
+    ends = [fninf, mk(1, 5, 1), mk(1, 3, 0), mk(1, 1, -2), fzero, mk(0, 1, -3), mk(0, 1, 0), mk(0, 3, 0), mk(0, 7, 2),
+            mk(0, (1 << 70) + 1, -68), mk(1, (1 << 70) + 1, -69), finf]
+
+    def v(e):
+        if e == finf:
+            return float('inf')
+        if e == fninf:
+            return float('-inf')
+        q = Fraction(e[1]) * Fraction(2) ** e[2]
+        return -q if e[0] else q
+    ivs = []
+    for a in ends:
+        for b in ends:
+            if v(a) <= v(b) and not (a == finf and b == finf) and not (a == fninf and b == fninf):
+                ivs.append(((a, b), v(a), v(b)))
+    return ivs
+
+
+def _members(lo, hi):
+    from fractions import Fraction
+    inf = float('inf')
+    if lo == -inf and hi == inf:
+        return [Fraction(0), Fraction(-1000), Fraction(1000)]
+    if lo == -inf:
+        return [hi, hi - 1, hi - 10 ** 6]
+    if hi == inf:
+        return [lo, lo + 1, lo + 10 ** 6]
+    return [lo, hi, (lo + hi) / 2]
+
+
+def mpi2_inputs(seed=0, tier='quick'):
+    ivs = _iv_pool()
+    for s, slo, shi in ivs:
+        for t, tlo, thi in ivs:
+            for prec in (0, 1, 2, 5, 53):
+                for x in _members(slo, shi):
+                    for y in _members(tlo, thi):
+                        yield dict(s=s, t=t, prec=prec, x=x, y=y)
+
+
+def mpi1_inputs(seed=0, tier='quick'):
+    ivs = _iv_pool()
+    for s, slo, shi in ivs:
+        for prec in (0, 1, 2, 5, 53):
+            for x in _members(slo, shi):
+                yield dict(s=s, prec=prec, x=x)
+
+
+GENS.update({'mpi2_inputs': mpi2_inputs, 'mpi1_inputs': mpi1_inputs})
